@@ -8,4 +8,4 @@ mkdir -p /verif/.build/tmp
 /verif/.build/harness-target/release/harness dump-tables > /verif/.build/tables.tmp
 cmp -s /verif/.build/tables.tmp /verif/lean/BoolFn/Generated/Tables.lean || cp /verif/.build/tables.tmp /verif/lean/BoolFn/Generated/Tables.lean
 cd /verif/lean
-lake build BoolFn Driver driver
+lake build BoolFn driver
